@@ -45,6 +45,13 @@ pub fn alt_leg() -> bool {
     std::env::var("SDSIM_LEG").ok().as_deref() == Some("alt")
 }
 pub const ALT_LEG_CHECKS: &[&str] = &["C02", "C03", "C04", "C07", "C08", "C09", "C10", "C15"];
+/// The atomics leg (`SDSIM_LEG=atomics`, binary built on nightly with `-Zsanitizer=thread` and the
+/// simulator's own runtime, see tsanrt.rs): every atomic operation of instrumented code is a
+/// scheduling point.
+pub fn atomics_leg() -> bool {
+    std::env::var("SDSIM_LEG").ok().as_deref() == Some("atomics")
+}
+pub const ATOMICS_LEG_CHECKS: &[&str] = &["C14"];
 
 fn verif_dir() -> String {
     std::env::var("VERIF_DIR").unwrap_or_else(|_| "/verif".to_string())
@@ -622,7 +629,7 @@ fn process_violation(check: &str, tier: &str, base: u64, idx: u64, v: &Violation
     let file = json!({
         "property": fv.property, "clause": fv.clause, "signature": fv.signature, "trigger": fv.trigger,
         "found_by": {"check": check, "verif_seed": base, "run_index": idx, "run_seed": seed},
-        "build": if alt_leg() { "alt" } else { "default" },
+        "build": if alt_leg() { "alt" } else if atomics_leg() { "atomics" } else { "default" },
         "minimisation": {"executions": budget.execs, "reproduced_in_fresh_process": reproduced},
         "observed": fv.detail,
         "prelude_note": if prelude.is_empty() { Value::Null } else { json!("the scenarios in `prelude` are executed first, in this order, in the same process: the violation depends on state the code under test keeps across simulated worlds") },
@@ -666,18 +673,23 @@ pub fn check_main(args: &[String]) -> i32 {
         println!("HARNESS-ERROR: the alternate build leg exists for {:?} and needs the sdsim-mock binary", ALT_LEG_CHECKS);
         return 2;
     }
+    let atomics = atomics_leg();
+    if atomics && (!cfg!(sdsim_tsan) || !ATOMICS_LEG_CHECKS.contains(&check.as_str())) {
+        println!("HARNESS-ERROR: the atomics leg exists for {:?} and needs the binary built with -Zsanitizer=thread (--cfg sdsim_tsan)", ATOMICS_LEG_CHECKS);
+        return 2;
+    }
     if !alt && cfg!(feature = "mock") != (check == "C16") {
         println!("HARNESS-ERROR: check {} must run in the {} binary", check, if check == "C16" { "sdsim-mock" } else { "sdsim" });
         return 2;
     }
     // the alternate leg explores other seeds (a fifth as many runs)
-    let base = if alt { base_seed() ^ 0xa17 } else { base_seed() };
+    let base = if alt { base_seed() ^ 0xa17 } else if atomics { base_seed() ^ 0xa70 } else { base_seed() };
     let workers = parse_flag(args, "--workers").unwrap_or(16) as usize;
     let full = if tier == "thorough" { cfg.runs_thorough } else { cfg.runs_quick };
-    let runs = parse_flag(args, "--runs").unwrap_or(if alt { (full / 5).max(200) } else { full });
+    let runs = parse_flag(args, "--runs").unwrap_or(if alt { (full / 5).max(200) } else if atomics { (full / 8).max(100) } else { full });
     let wall_cap = Duration::from_secs(if tier == "thorough" { 3000 } else { 600 });
     let t0 = Instant::now();
-    println!("sdsim check={} tier={} VERIF_SEED={} runs={} workers={}{}", check, tier, base_seed(), runs, workers, if alt { " leg=alternate-build (feature mock_salts, no debug assertions, no overflow checks)" } else { "" });
+    println!("sdsim check={} tier={} VERIF_SEED={} runs={} workers={}{}", check, tier, base_seed(), runs, workers, if alt { " leg=alternate-build (feature mock_salts, no debug assertions, no overflow checks)" } else if atomics { " leg=atomics (every atomic operation of instrumented code is a scheduling point)" } else { "" });
 
     let known = match known::load(&format!("{}/known_findings.jsonl", verif_dir())) {
         Ok(k) => k,
@@ -925,9 +937,12 @@ pub fn check_main(args: &[String]) -> i32 {
     let _ = std::fs::create_dir_all(&edir);
     let epath = format!("{}/{}.json", edir, check);
     // the alternate build leg adds itself to the evidence of the main leg
-    let evidence = if alt {
+    let evidence = if alt || atomics {
+        let leg_key = if alt { "alternate_build_leg" } else { "atomics_leg" };
         let leg = json!({
-            "build": "sd-jwt-rs compiled with feature mock_salts (salt queue topped up by the harness), debug-assertions off, overflow-checks off",
+            "build": if alt { "sd-jwt-rs compiled with feature mock_salts (salt queue topped up by the harness), debug-assertions off, overflow-checks off" } else { "nightly toolchain, -Zsanitizer=thread with the simulator's own runtime (tsanrt.rs): atomic operations in sd-jwt-rs, its dependencies and the generic std code instantiated in them (uncontended lock fast paths, Arc, AtomicXxx) are calls into the runtime and seeded scheduling points" },
+            "counters": evidence["coverage"]["counters"],
+            "probes": evidence["coverage"]["probes"],
             "runs": agg.runs,
             "evaluations": agg.evaluations,
             "distinct_nontrivial": agg.nontrivial.len(),
@@ -940,7 +955,7 @@ pub fn check_main(args: &[String]) -> i32 {
         });
         match std::fs::read_to_string(&epath).ok().and_then(|t| parse_json_unbounded(&t).ok()) {
             Some(mut main) if main.get("coverage").map(Value::is_object).unwrap_or(false) && main["tier"] == json!(tier) => {
-                main["coverage"]["alternate_build_leg"] = leg;
+                main["coverage"][leg_key] = leg;
                 if let Some(w) = main["wall_s"].as_f64() {
                     main["wall_s"] = json!(w + wall);
                 }
@@ -951,7 +966,7 @@ pub fn check_main(args: &[String]) -> i32 {
             }
             _ => {
                 let mut e = evidence.clone();
-                e["coverage"]["alternate_build_leg"] = leg;
+                e["coverage"][leg_key] = leg;
                 e
             }
         }
@@ -965,7 +980,7 @@ pub fn check_main(args: &[String]) -> i32 {
     println!(
         "summary check={}{} tier={} runs={} evaluations={} distinct_nontrivial={} states={} sim_seconds={} wall_s={:.1} known={} violations={}",
         check,
-        if alt { " leg=alternate-build" } else { "" },
+        if alt { " leg=alternate-build" } else if atomics { " leg=atomics" } else { "" },
         tier,
         agg.runs,
         agg.evaluations,
@@ -1076,7 +1091,7 @@ pub fn replay_main(args: &[String]) -> i32 {
 pub fn determinism_main(args: &[String]) -> i32 {
     let runs = parse_flag(args, "--runs").unwrap_or(200);
     let base = base_seed();
-    let checks: Vec<&str> = if alt_leg() { ALT_LEG_CHECKS.to_vec() } else if cfg!(feature = "mock") { vec!["C16"] } else { vec!["C02", "C03", "C04", "C07", "C08", "C09", "C10", "C11", "C12", "C14", "C15"] };
+    let checks: Vec<&str> = if atomics_leg() { ATOMICS_LEG_CHECKS.to_vec() } else if alt_leg() { ALT_LEG_CHECKS.to_vec() } else if cfg!(feature = "mock") { vec!["C16"] } else { vec!["C02", "C03", "C04", "C07", "C08", "C09", "C10", "C11", "C12", "C14", "C15"] };
     let mut bad = 0;
     for c in checks {
         let a = run_batch(c, "quick", base, 0, runs, 16, Duration::from_secs(1200));
